@@ -72,6 +72,10 @@ def fail(mon, msg, defn, **facts):
     raise v
 
 
+def ref_to(pub, names, i):
+    return [names[1], names[2], names[3]][i]
+
+
 def converse(ch, ctx, kind, twin=False):
     d = copy.deepcopy(BASE)
     c = ctx["counters"]
@@ -135,6 +139,21 @@ def converse(ch, ctx, kind, twin=False):
         r = native_specs.WorkflowSpec(d).inspect()
         if not any("start" in e.get("message", "") for e in r.get("semantics", [])):
             fail("no-start-not-reported", "inspection accepts a definition without a start task: %s" % r, d, which=which)
+    elif kind == "branch-leak":
+        # a variable published only on a parallel branch is referenced where nothing upstream assigns it;
+        # no input/vars, so start tasks begin with an empty set of assigned variables
+        names = [("a1", "a2", "b1", "b2"), ("b1", "b2", "a1", "a2"), ("m1", "m2", "a1", "a2"), ("a1", "a2", "z1", "z2")][ch.pick("names", 4)]
+        pub, ref = names[0], names
+        form = FORMS[ch.pick("form", 8)].replace("zz", "x")
+        d = {"version": 1.0, "tasks": {
+            pub: {"action": "core.noop", "next": [{"publish": [{"x": 1}], "do": ref_to(pub, ref, 0)}]},
+            ref_to(pub, ref, 0): {"action": "core.noop"},
+            ref_to(pub, ref, 1): {"action": "core.noop", "next": [{"do": ref_to(pub, ref, 2)}]},
+            ref_to(pub, ref, 2): {"action": "core.echo", "input": {"m": form}},
+        }}
+        r = native_specs.WorkflowSpec(d).inspect()
+        if not any('"x"' in e.get("message", "") and "referenced before assignment" in e.get("message", "") for e in r.get("context", [])):
+            fail("unassigned-not-reported", "inspection accepts the reference %r in a task that only a parallel branch's publish precedes: %s" % (form, r), d, form=form)
     if twin:
         fail("reachability-twin", "mutant inspected", d)
     return {"kind": kind}
@@ -198,7 +217,7 @@ def forward(ch, ctx, steps=5, twin=False, order=False, bits=False, fanout="pairs
 
 def obligations(tier):
     obs = []
-    for kind in ("unassigned", "self-reference", "grammar", "undefined-task", "reserved-name", "no-start"):
+    for kind in ("unassigned", "self-reference", "branch-leak", "grammar", "undefined-task", "reserved-name", "no-start"):
         o = ob("C15", "e2c.converse." + kind, "vt.harness.C15:converse", {"kind": kind}, timeout=900)
         o["antecedents"] = ["c15_mutants"]
         obs.append(o)
